@@ -47,6 +47,9 @@ func check(s Spec) h.Result {
 		cl = append(cl, "opt:size-limit")
 	}
 	cl = append(cl, fmt.Sprintf("opt:partitions=%d", s.Opt.Partitions))
+	if s.Opt.Peek > 0 {
+		cl = append(cl, "pools:handed-over-after-use")
+	}
 	for _, e := range s.Pair.New {
 		if e.Kind == h.KFile {
 			n := e.C.Len()
@@ -125,6 +128,11 @@ var prop = h.Prop[Spec]{
 			Concurrency: rapid.IntRange(-1, 4).Draw(t, "concurrency"),
 			ForceMapAll: rapid.IntRange(0, 3).Draw(t, "force") == 0,
 			Comp:        genComp(t, "out"),
+		}
+		if rapid.IntRange(0, 2).Draw(t, "used-pools") == 0 {
+			s.Opt.Peek = rapid.SampledFrom([]int{1, 4113, 1 << 30}).Draw(t, "peek-bytes")
+			s.Opt.PeekOld = rapid.IntRange(0, 7).Draw(t, "peek-old")
+			s.Opt.PeekNew = rapid.IntRange(0, 7).Draw(t, "peek-new")
 		}
 		if rapid.IntRange(0, 4).Draw(t, "limit") == 0 {
 			s.Opt.RediffSizeLimit = int64(rapid.SampledFrom([]int{1, 16, 100, h.BS, 2*h.BS + 1}).Draw(t, "limit-bytes"))
